@@ -1750,6 +1750,8 @@ def _unparenthesize_grouping(self: fst.FST, shared: bool | None = True, *, star_
         else:
             self._put_src(None, pln, pcol, ln, col, False)
 
+        self._touch()  # because if both parentheses were replaced with spaces directly above then nothing flushed our cached pars()
+
     return True
 
 
